@@ -41,6 +41,8 @@ PROGRAMS = [
         "async def f(a):\n    async with a as b:\n        yield [x for x in b if x]\ntry:\n    f(1)\nfinally:\n    z = 1\nwhile a:\n    break\n",
     ),
     ("far-lines", "x = 1\n" + "\n" * 300 + "y = f(\n" + "\n" * 130 + "x)\n"),
+    # one-line suites: <=3.8 record extra line-table entries on argument-less instructions
+    ("one-line-suites", "for i in a:\n    if i: break\ntry:\n    f()\nexcept E: pass\nclass A: pass\nclass A: pass\n"),
 ]
 
 INSTR = re.compile(r"^\s*(\d+)?\s*(>>)?\s*(\d+) ([A-Z_+0-9]+)(?:\s+(-?\d+)(?: \((.*)\))?)?\s*$")
